@@ -50,7 +50,17 @@ async def run_exchange(sc, client=None, agent=None):
     VS.CALLS.clear()
     nlog = len(ag.log)
     o = OID(oidstr(inst))
-    ptype = {"get": GET, "multiget": GET, "getnext": GETNEXT, "walk": GETNEXT, "bulkget": GETBULK, "bulkwalk": GETBULK, "set": SET, "multiset": SET}[op]
+    ptype = {"get": GET, "multiget": GET, "getnext": GETNEXT, "walk": GETNEXT, "bulkget": GETBULK, "bulkwalk": GETBULK, "set": SET, "multiset": SET,
+             "padget": GET, "padgetnext": GETNEXT, "padbulk": GETBULK, "padset": SET}[op]
+    # request-side padding: OIDs with `reqpad` extra one-octet arcs spread over as many OIDs as needed
+    rp = sc.get("reqpad", 0)
+    padoids = []
+    while True:
+        k = min(rp, 110)
+        padoids.append(OID(oidstr(PFX + (5, len(padoids) + 1) + (1,) * k)))
+        rp -= k
+        if rp <= 0:
+            break
     try:
         try:
             if op == "get":
@@ -74,6 +84,18 @@ async def run_exchange(sc, client=None, agent=None):
             elif op == "set":
                 r = await c.set(OID(oidstr(PFX + (9, 0))), OctetString(secret))
                 match = r.value == secret
+            elif op == "padget":
+                r = await c.multiget(padoids)
+                match = len(r) == len(padoids)
+            elif op == "padgetnext":
+                r = await c.multigetnext(padoids)
+                match = True
+            elif op == "padbulk":
+                r = await c.bulkget([], padoids, 1)
+                match = True
+            elif op == "padset":
+                r = await c.multiset({o_: Integer(1) for o_ in padoids})
+                match = len(r) == len(padoids)
             elif op == "multiset":
                 r = await c.multiset({OID(oidstr(PFX + (9, 0))): OctetString(secret), OID(oidstr(PFX + (9, 1))): Integer(5)})
                 match = [v.value for v in r.values()] == [secret, 5]
